@@ -171,7 +171,13 @@ func mathMod(L *LState) int {
 }
 
 func mathModf(L *LState) int {
-	v1, v2 := math.Modf(float64(L.CheckNumber(1)))
+	x := float64(L.CheckNumber(1))
+	v1, v2 := math.Modf(x)
+	if math.IsInf(x, 0) {
+		// Go returns a NaN fractional part for an infinity; C's modf returns
+		// a zero with the sign of the argument
+		v2 = math.Copysign(0, x)
+	}
 	L.Push(LNumber(v1))
 	L.Push(LNumber(v2))
 	return 2
